@@ -283,7 +283,15 @@ impl Property for C20 {
             // route 1b (drawn last): parse of a LEXICALLY RICH rendering of the same document
             // (references, CDATA runs, CR / CRLF line ends, alias prefixes, interleaved declarations)
             if let Ok(rich) = render::render(src, &doc, render::Style { fragment: false, prolog: is_doc, ..render::Style::rich() }) {
-                match guarded(|| xot.parse(&rich.text)).map_err(|p| format!("parse of a rich rendering panicked: {}", p))? {
+                // the parse route does not depend on the manipulation option either
+                let off = src.ratio(1, 4);
+                if off {
+                    xot.set_text_consolidation(false);
+                    ctx.label("rich_rendering_parsed_with_consolidation_off");
+                }
+                let parsed = guarded(|| xot.parse(&rich.text));
+                xot.set_text_consolidation(true);
+                match parsed.map_err(|p| format!("parse of a rich rendering panicked: {}", p))? {
                     Ok(d2) => {
                         ctx.label("rich_rendering_parsed");
                         let by_rich = if is_doc { d2 } else { xot.document_element(d2).map_err(|e| e.to_string())? };
